@@ -519,6 +519,58 @@ static std::string do_close_at(const std::string & line) {
     return out;
 }
 
+// FG <cs1> <cs2> <k> <n> : write session; the first worker to take UncompressedFile's mutex for the (k+1)-th time is parked there,
+// the application changes the container size from cs1 to cs2, releases it, writes n objects, closes, reads them back.
+// (The container size takes effect exactly between two operations of a worker on the stream.)  Sched build only.
+static std::string do_resize_at(const std::string & line) {
+    std::istringstream ss(line);
+    std::string cmd;
+    long cs1 = 64, cs2 = 300000, k = 0, n = 100;
+    ss >> cmd >> cs1 >> cs2 >> k >> n;
+    std::string path = g_tmp + ".g.blf";
+    int parked = 0;
+    {
+        File f;
+        f.setDefaultLogContainerSize(static_cast<uint32_t>(cs1));
+#ifdef VERIF_SCHED_SHIM
+        vshim::Gate & g = vshim::gate();
+        g.owner = std::this_thread::get_id();
+        g.parked = 0; g.release = 0;
+        g.countdown = k;
+        g.mtx = static_cast<void *>(&f.m_uncompressedFile.m_mutex);
+#endif
+        f.open(path.c_str(), std::ios_base::out);
+        if (!f.is_open()) return "FG err open";
+#ifdef VERIF_SCHED_SHIM
+        for (int t = 0; t < 3000 && !g.parked.load(); t++) std::this_thread::sleep_for(std::chrono::microseconds(100));
+        parked = g.parked.load();
+#endif
+        f.setDefaultLogContainerSize(static_cast<uint32_t>(cs2));
+#ifdef VERIF_SCHED_SHIM
+        g.release = 1;
+        g.mtx = nullptr; g.countdown = -1;
+#endif
+        for (long i = 0; i < n; i++) { auto * o = new CanMessage; o->id = static_cast<uint32_t>(i); f.write(o); g_progress++; }
+        f.close();
+    }
+    long cnt = 0;
+    bool inorder = true;
+    {
+        File f;
+        f.open(path.c_str(), std::ios_base::in);
+        while (ObjectHeaderBase * o = f.read()) {
+            CanMessage * m = dynamic_cast<CanMessage *>(o);
+            if (!m || m->id != static_cast<uint32_t>(cnt)) inorder = false;
+            delete o;
+            cnt++;
+            g_progress++;
+        }
+        f.close();
+    }
+    std::remove(path.c_str());
+    return "FG ok parked=" + std::to_string(parked) + " n=" + std::to_string(cnt) + " inorder=" + (inorder ? "1" : "0");
+}
+
 // FM <nobj> <objbytes> <cs> <sleep_us_per_read> : write nobj AppText-like objects, read them back slowly; peak live bytes while reading
 static std::string do_memory(const std::string & line) {
     std::istringstream ss(line);
@@ -715,6 +767,7 @@ int main(int argc, char ** argv) {
             else if (line.compare(0, 3, "FS ") == 0) r = do_write_delay(line);
             else if (line.compare(0, 3, "FE ") == 0) r = do_read_early(line);
             else if (line.compare(0, 3, "FK ") == 0) r = do_close_at(line);
+            else if (line.compare(0, 3, "FG ") == 0) r = do_resize_at(line);
             else if (line.compare(0, 3, "FM ") == 0) r = do_memory(line);
             else if (line.compare(0, 3, "FH ") == 0) r = do_history(line);
             else if (line.compare(0, 3, "FN ") == 0) r = do_memory_write(line);
